@@ -46,7 +46,7 @@ def replay_cases(v, exe, cases, rand, seed, dims, level):
         lines_in.append(" ".join(str(x) for x in parts))
     nrand = len(rand)
     for i in rand:
-        lines_in.append("RAND %d %d %d %d" % (i, dims[i % len(dims)], seed * 1000003 + i, (i // len(dims)) % 2))
+        lines_in.append("RAND %d %d %d %d" % (i, dims[i % len(dims)], seed * 1000003 + i, (i // len(dims)) % 4))
     rc, lines, err = vlib.run_lines(exe, "\n".join(lines_in) + "\n", timeout=900)
     done = [l for l in lines if l.startswith("DONE")]
     if any(l.startswith("BADINPUT") for l in lines):
@@ -73,7 +73,7 @@ def replay_cases(v, exe, cases, rand, seed, dims, level):
         if cid < 0:
             i = -cid - 1
             d = dims[i % len(dims)]
-            kind = "smallgap" if (i // len(dims)) % 2 else "generic"
+            kind = ["generic", "smallgap", "hugeidentity", "scaled"][(i // len(dims)) % 4]
             v.violation("GetEigenSystem/d=%d/seeded-%s/%s" % (d, kind, what),
                         "seeded dense input #%d (d=%d, %s) order=%s: %s err=%s tol=%s" % (i, d, kind, order, text, errv, tol),
                         {"rand": i, "d": d, "seed": seed * 1000003 + i, "kind": kind})
